@@ -34,7 +34,7 @@ def run(tier):
                 res.inst(f.rule, f.desc)
             else:
                 res.violate(f.rule, f.where, f.construct, f.msg, file=f.file, line=f.line)
-    res.floor("C14.R1", 17 + 8)
+    res.floor("C14.R1", 7 + 8)
     res.floor("C14.R2", 8)
     res.floor("C14.R3", 14)
     res.floor("C14.R4", 2)
